@@ -417,7 +417,9 @@ Arguments TForm {V} v.
 
 (* http_request_load_body.  The body is read (and capped) first; then the
    content type decides.  [json_de] stands for
-   [serde_path_to_error::deserialize(&mut serde_json::Deserializer::from_slice(&body))]. *)
+   [serde_path_to_error::deserialize(&mut serde_json::Deserializer::from_slice(&body))]:
+   ONE value is deserialised off the front of the buffer and the rest of the
+   buffer is never looked at (there is no [jd.end()] in body.rs). *)
 Definition extract_typed_body {V} (json_de : str -> option V)
            (expected : ctype) (sp : spec) (h : hdr) (cap : N) (frames : list str)
   : res xerr (typed V) :=
